@@ -245,6 +245,20 @@ impl<'a> VdafVisitor for P3Run<'a> {
                     Err(e) => return (Attempt::Rejected(format!("constructor: {e}")), exp),
                 }
             }
+            // The aggregator API is stateless by contract: what an instance did for an earlier
+            // report (here: the same report under the sharding context, nonce and its true
+            // identifier, with this aggregator's key) must not influence what it does next. Half of
+            // the cases run that honest step first on the very instances that then see the mismatch.
+            if case.rand_seed % 2 == 0 {
+                for (j, v) in views.iter().enumerate() {
+                    let a = AggInput { agg_id: j, verify_key: v.key, ctx: case.ctx.0.clone(), nonce, public_share: sh.public_share.clone(), input_share: sh.input_shares[j].clone() };
+                    if let Err(f) = init_wire(&insts[j], &(), &a) {
+                        if f.is_panic() {
+                            return (Attempt::Panicked(f), exp);
+                        }
+                    }
+                }
+            }
             let mut states = vec![];
             let mut shares = vec![];
             for (j, v) in views.iter().enumerate() {
